@@ -331,9 +331,11 @@ pub fn directed_specs() -> Vec<GSpec> {
         reqs.push(rm(i));
     }
     reqs.push(a(2, "n0"));
-    reqs.push(a(1, "n1"));
-    reqs.push(a(0, "n2"));
     reqs.push(a(19, "nt"));
+    for j in 0..6 {
+        reqs.push(a(1, &format!("h{}", j)));
+        reqs.push(a(0, &format!("b{}", j)));
+    }
     reqs.push(cl(Simple));
     for j in 0..4 {
         reqs.push(a(3, &format!("w{}", j)));
@@ -341,6 +343,25 @@ pub fn directed_specs() -> Vec<GSpec> {
     }
     reqs.push(cl(Simple));
     push("many-small-fields", 0, reqs);
+    // the same with equal-sized fields: every hole fits every addition
+    let mut reqs = Vec::new();
+    for i in 0..70 {
+        reqs.push(if i % 3 == 0 { u(2, &format!("c{}", i)) } else { a(2, &format!("c{}", i)) });
+    }
+    reqs.push(cl(Simple));
+    for i in (1..70).step_by(2) {
+        reqs.push(rm(i));
+    }
+    for j in 0..3 {
+        reqs.push(a(2, &format!("n{}", j)));
+    }
+    reqs.push(cl(Simple));
+    for j in 0..4 {
+        reqs.push(a(3, &format!("w{}", j)));
+        reqs.push(a(2, &format!("x{}", j)));
+    }
+    reqs.push(cl(Simple));
+    push("many-equal-fields", 0, reqs);
     // more than 32 data added by one later variant, after a removal that leaves a hole
     let mut reqs = vec![a(3, "a"), a(2, "b"), a(2, "c"), a(3, "e"), cl(Simple), rm(1)];
     for j in 0..34 {
@@ -763,6 +784,14 @@ pub fn driver_text(k: usize, spec: &GSpec, built: &Built, reduced: bool, generat
         w,
         "    Op::Convert {{ slot, form, ids, mask }} => {{ let (n, o) = match self.take(*slot) {{\n{}\n      _ => panic!(\"cannot convert\") }}; out.obs = o; *self.slot_mut(*slot) = n; }}",
         (0..nv.saturating_sub(1)).map(|v| format!("      Rec::V{v}(r) => {{ let (n, o) = convert_{}(r, *form, ids, *mask); (Rec::V{}(n), o) }}", v + 1, v + 1)).collect::<Vec<_>>().join("\n")
+    );
+    let _ = writeln!(
+        w,
+        "    Op::ConvertDropPanic {{ slot, form, ids, k }} => {{ let r = self.take(*slot); vtypes::DROP_PANIC_COUNTDOWN.with(|c| c.set(*k as i64));
+      let res = catch_unwind(AssertUnwindSafe(|| match r {{\n{}\n        _ => panic!(\"cannot convert\") }}));
+      vtypes::DROP_PANIC_COUNTDOWN.with(|c| c.set(-1));
+      match res {{ Ok(n) => {{ *self.slot_mut(*slot) = n; }} Err(p) => {{ out.panicked = Some(drvlib::panic_text(p)); }} }} }}",
+        (0..nv.saturating_sub(1)).map(|v| format!("        Rec::V{v}(r) => Rec::V{}(convert_{}(r, *form, ids, 0).0),", v + 1, v + 1)).collect::<Vec<_>>().join("\n")
     );
     let _ = writeln!(
         w,
